@@ -106,6 +106,12 @@ def driverStep (d : DState) (line : SExp) : DState × SExp :=
         else (d, .atom "bad-op")
       | none => (d, .atom "bad-op")
     | _, _ => (d, .atom "bad-op")
+  | .list [.atom "ghold"] =>
+    -- a hold on the whole dispatcher: everything any object posts is queued
+    fin ((List.range d.ts.tree.length).foldl holdT d.ts)
+  | .list [.atom "grelease"] =>
+    -- … released: containers first, so that what the objects below them post travels on
+    fin ((List.range d.ts.tree.length).foldl releaseT d.ts)
   | .list [.atom "hold", i] =>
     match asNat? i with
     | some i => fin (holdT d.ts i)
